@@ -16,8 +16,11 @@ structure PW where
   default : Option Bytes       -- the configured default (`PIN` environment variable)
   deriving Repr, DecidableEq, Inhabited
 
+/-- what happens to the command that carries the new PIN: acknowledged; refused (invalid-PIN status);
+    another error status; the link fails on that very exchange (no acknowledgement is seen and the
+    device keeps its PIN); the exchange times out -/
 inductive DevAns where
-  | accept | refuse | error
+  | accept | refuse | error | link | timeout
   deriving Repr, DecidableEq, Inhabited
 
 inductive Crash where
@@ -61,6 +64,8 @@ def change (w : PW) (r : Run) : PW × Outcome :=
   match r.dev with
   | .refuse => (w, .stopped)
   | .error => (w, .stopped)
+  | .link => (w, .stopped)
+  | .timeout => (w, .stopped)
   | .accept =>
     if r.crash == .afterAck then ({ w with devicePin := r.newPin }, .crashed)
     else if !r.openOk then ({ w with devicePin := r.newPin }, .stopped)
